@@ -139,10 +139,14 @@ def run(case, kind, seed=0, n_ops=10, ops=None, profile=None):
     # the fast encoder's decode as a function of graph, vector and fixed flags (Greedy.fast_decode), compared "=": no choice
     # constraints, outside the known-finding classes
     fast_vars = None
-    if kind == 'fast' and not case.get('cons') and not case.get('conn') and not dsgcase.guards(case):
+    if kind == 'fast' and not case.get('conn') and not dsgcase.guards(case):
         declared = {e[1]: (j, e[2]) for j, e in enumerate(E) if e[0] == 'sel'}
-        order = sorted((sc['id'] for sc in case['sel']), key=lambda c: 'S%02d' % c)
+        # design-vector order: the declared selection variables as the encoding lists them (the analyzer orders choices
+        # layer by layer), the undeclared (forced) ones after them -- they have one value; application order: by decision id
+        by_id = sorted((sc['id'] for sc in case['sel']), key=lambda c: 'S%02d' % c)
+        order = [e[1] for e in E if e[0] == 'sel'] + [c for c in by_id if c not in declared]
         fast_vars = [[c, list(declared[c][1]) if c in declared else list(b.opt_order[c])] for c in order]
+        fast_ovars = sorted(fast_vars, key=lambda v: 'S%02d' % v[0])
         mg_fast = dsgcase.model_dsg(case, b.opt_order, getattr(b, 'cons_opts', None))
     if ops is None:
         ops = gen_ops(rng, E, n_ops, profile)
@@ -197,7 +201,7 @@ def run(case, kind, seed=0, n_ops=10, ops=None, profile=None):
                     xfull = {i: v for i, v in zip(free_idx, x)}
                     xfull.update(fixed)
                     if all(E[j][0] != 'sel' or (float(xfull[j]).is_integer() and 0 <= xfull[j] < len(E[j][2])) for j in xfull):
-                        m = run_dsgm([sx(['fast_decode', True, mg_fast, fast_vars,
+                        m = run_dsgm([sx(['fast_decode', True, mg_fast, fast_ovars, fast_vars,
                                           [int(xfull[declared[c][0]]) if c in declared else 0 for c, _ in fast_vars],
                                           [bool(c in declared and declared[c][0] in fixed) for c, _ in fast_vars]])])[0]
                         if is_model_error(m) or m == 'none':
